@@ -8,6 +8,7 @@ package uhppote
 import (
 	"errors"
 	"net"
+	"net/netip"
 	"time"
 
 	"github.com/uhppoted/uhppote-core/types"
@@ -127,6 +128,19 @@ func (d *vDriver) Listen(signal chan any, done chan any, handler func([]byte)) e
 func vClient(d *vDriver) *uhppote {
 	// (debug printing on or off: it must not change what is sent or returned)
 	return &uhppote{devices: map[uint32]Device{}, driver: d, debug: nondetBool("client.debug")}
+}
+
+// vConfigure: the controller is in the device table (directed route) with a configured time zone that is nil,
+// UTC or the process zone - what is sent and what is returned must not depend on it
+func vConfigure(u *uhppote, id uint32, proto string) {
+	var tz *time.Location
+	switch nondetEnum("device.timezone", 3) {
+	case 1:
+		tz = time.UTC
+	case 2:
+		tz = time.Local
+	}
+	u.devices[id] = Device{Name: "alpha", DeviceID: id, Address: types.ControllerAddrFrom(netip.AddrFrom4([4]byte{192, 168, 1, 100}), 60000), Protocol: proto, TimeZone: tz}
 }
 
 // ---------------------------------------------------------------- protocol table helpers
